@@ -21,10 +21,11 @@ Proof.
                                                 && public f && negb (exempt f) && is_mutator f) all_ids) expected_mutators = true)
     by (vm_compute; reflexivity).
   intros n Hn. rewrite forallb_forall in H. specialize (H n Hn). apply existsb_exists in H as [f [_ Hf]].
-  repeat (apply andb_prop in Hf as [Hf ?]). exists f.
+  apply andb_prop in Hf as [Hf Hmut]. apply andb_prop in Hf as [Hf Hex]. apply andb_prop in Hf as [Hf Hpub].
+  apply andb_prop in Hf as [Hname Hlt]. exists f.
   destruct (string_dec (name_of f) n) as [E|]; [|discriminate].
   repeat split; auto.
-  - unfold name_of, nthd in E. apply Nat.ltb_lt in H3. rewrite (nth_error_nth' names "?"%string H3). now rewrite E.
+  - unfold name_of, nthd in E. apply Nat.ltb_lt in Hlt. rewrite (nth_error_nth' names "?"%string Hlt). now rewrite E.
   - now apply negb_true_iff.
 Qed.
 Print Assumptions C19_public_pure_refuted.
